@@ -1,5 +1,7 @@
 import PB.Model.FsAtomic
 import PB.Spec.FsCrash
+import PB.Model.FsSerial
+import PBProofs.Lemmas.FsInterleave
 import PBProofs.Lemmas.FsAtomic
 import PBProofs.Lemmas.FsWriters
 import PBProofs.Lemmas.FsDownload
@@ -629,5 +631,147 @@ example : safePublishDir (baseFS none) ["R", "dst", "pack"] none exTree exUnpack
 /-- extracting directly into the destination is rejected: readers see an incomplete directory -/
 example : safePublishDir (baseFS none) ["R", "dst", "pack"] none exTree
     [.mkdir ["R", "dst", "pack"] 0o700, .openC ["R", "dst", "pack", "a.txt"] true false true 0o644 (some 6)] = false := by decide
+
+/-! ### Several writers of one destination (strengthening round 4) -/
+
+/-- Under serialisation the single-writer theorem applies to every writer in turn. Let `P` be the set of allowed
+    states of the destination — the state before the first operation or any complete new content — and let every
+    writer, whenever it is STARTED in an allowed state, be accepted by the single-writer checker for "what it found"
+    → "some allowed state" (that is what `safePublishDir_sound`'s hypothesis asks of one writer). Then after EVERY
+    prefix of the combined run of any number of such writers executed one after the other, a reader of the
+    destination sees an allowed state. -/
+theorem serialised_writers_atomic (dest : Path) (P : Obs → Prop) (ws : List Writer)
+    (hw : ∀ w ∈ ws, ∀ s, P (vview s dest) → ∃ n, P n ∧ safePublishDir s dest (vview s dest) n (w s) = true) :
+    ∀ s0, P (vview s0 dest) → ∀ p q, serialRuns s0 ws = p ++ q → P (vview (run s0 p) dest) := by
+  induction ws with
+  | nil =>
+    intro s0 h0 p q hpq
+    have : p = [] := by
+      cases p with
+      | nil => rfl
+      | cons a b => exact absurd hpq (by simp [serialRuns])
+    subst this; exact h0
+  | cons w ws ih =>
+    intro s0 h0 p q hpq
+    obtain ⟨n, hn, hsafe⟩ := hw w (List.mem_cons_self ..) s0 h0
+    have hone := safePublishDir_sound dest (vview s0 dest) n (w s0) s0 hsafe
+    simp only [serialRuns] at hpq
+    rcases List.append_eq_append_iff.1 hpq with ⟨m, hm, _⟩ | ⟨m, hm, hq⟩
+    · -- p = w s0 ++ m : the first writer has finished, `m` is a prefix of the rest
+      subst hm
+      rw [run_append]
+      have hend : P (vview (run s0 (w s0)) dest) := by
+        rcases hone (w s0) [] (by simp) with h | h
+        · rw [h]; exact h0
+        · rw [h]; exact hn
+      exact ih (fun w' hw' => hw w' (List.mem_cons_of_mem _ hw')) (run s0 (w s0)) hend m _ (by assumption)
+    · -- w s0 = p ++ m : still inside the first writer
+      rcases hone p m hm with h | h
+      · rw [h]; exact h0
+      · rw [h]; exact hn
+
+/-- … and what has been published stays published: when the destination shows a complete new content (an element
+    of `news`: some operation has succeeded), every later state under any number of further serialised writers —
+    successful, failed or interrupted — shows a complete new content again (never the absent / older state, never a
+    fragment). -/
+theorem serialised_writers_keep_published (dest : Path) (news : List Obs) (ws : List Writer)
+    (hw : ∀ w ∈ ws, ∀ s, vview s dest ∈ news → ∃ n ∈ news, safePublishDir s dest (vview s dest) n (w s) = true)
+    (s0 : FS) (h0 : vview s0 dest ∈ news) (p q : List Call) (hpq : serialRuns s0 ws = p ++ q) :
+    vview (run s0 p) dest ∈ news :=
+  serialised_writers_atomic dest (· ∈ news) ws
+    (fun w hwm s hs => by obtain ⟨n, hn, h⟩ := hw w hwm s hs; exact ⟨n, hn, h⟩) s0 h0 p q hpq
+
+/-- The assumption "writers of one destination are serialised" is DISCHARGED for archive unpacking by the lock that
+    `UnpackArchive` takes in the source (regenerated: `PB.Gen.FsDownload.unpackLock`, 2 = exclusive): every combined
+    run of two unpackers the model admits shows, after every prefix, an allowed state. With `RLock` or no lock
+    (`unpackLock` ≠ 2) this proof fails — and the statement is false, see `two_unpackers_need_the_lock`. -/
+theorem unpack_two_writers_atomic (dest : Path) (P : Obs → Prop) (wa wb : Writer)
+    (ha : ∀ s, P (vview s dest) → ∃ n, P n ∧ safePublishDir s dest (vview s dest) n (wa s) = true)
+    (hb : ∀ s, P (vview s dest) → ∃ n, P n ∧ safePublishDir s dest (vview s dest) n (wb s) = true)
+    (s0 : FS) (h0 : P (vview s0 dest)) (t : List Call) (ht : TwoUnpackRuns unpackLockKind s0 wa wb t)
+    (p q : List Call) (hpq : t = p ++ q) : P (vview (run s0 p) dest) := by
+  have hk : unpackLockKind = 2 := rfl
+  unfold TwoUnpackRuns at ht
+  rw [if_pos hk] at ht
+  rcases ht with ht | ht
+  · exact serialised_writers_atomic dest P [wa, wb]
+      (by intro w hw; simp only [List.mem_cons, List.not_mem_nil, or_false] at hw; rcases hw with rfl | rfl <;> assumption)
+      s0 h0 p q (ht ▸ hpq)
+  · exact serialised_writers_atomic dest P [wb, wa]
+      (by intro w hw; simp only [List.mem_cons, List.not_mem_nil, or_false] at hw; rcases hw with rfl | rfl <;> assumption)
+      s0 h0 p q (ht ▸ hpq)
+
+/-! Writers that need NO serialisation: renameio's private temp files. -/
+
+/-- Two renameio writers of ONE destination that are not serialised at all (two downloads / two File.Unpack of the
+    same file, each with its own O_EXCL temp file and descriptor): EVERY interleaving of their two call sequences
+    (924) is accepted by the single-file checker — readers and crash outcomes see old or new throughout — whether
+    the destination was absent or held a previous file. Bounded: the concrete one-chunk content `oneChunk`
+    (kernel exploration in Lemmas/FsInterleave.lean; `Interleave` is the inductive definition, unbounded). -/
+theorem two_renameio_writers_any_interleaving :
+    ∀ old ∈ [none, some (([⟨0, 0, 100⟩] : Content), 0o644)], ∀ t,
+      Interleave (publishSeq tmpF destF 6 0o644 oneChunk) (publishSeq tmpF2 destF 7 0o600 oneChunk) t →
+      safePublish (baseFS old) destF (baseOld old) (some (.file (written oneChunk), [])) t = true := by
+  intro old hold t ht
+  simp only [List.mem_cons, List.not_mem_nil, or_false] at hold
+  rcases hold with rfl | rfl
+  · exact List.all_eq_true.1 renameio_pair_explored_absent t (interleave_mem ht)
+  · exact List.all_eq_true.1 renameio_pair_explored_file t (interleave_mem ht)
+
+/-- … and that rests on the temp file being PRIVATE: with one shared temp name (opened O_TRUNC instead of
+    O_EXCL under a fresh name) some interleaving publishes a fragment — B truncates what A is about to rename. -/
+def sharedTmpSeq (fd : Nat) : List Call :=
+  [.openC tmpF true false true 0o600 (some fd), .fchmod fd 0o644] ++ oneChunk.map (.write fd) ++
+  [.fsync fd, .close fd, .rename tmpF destF]
+
+theorem shared_temp_name_needs_serialisation :
+    ∃ t, Interleave (sharedTmpSeq 6) (sharedTmpSeq 7) t ∧
+      safePublish (baseFS none) destF none (some (.file (written oneChunk), [])) t = false := by
+  refine ⟨(sharedTmpSeq 6).take 3 ++ (sharedTmpSeq 7).take 1 ++ (sharedTmpSeq 6).drop 3 ++ (sharedTmpSeq 7).drop 1, ?_, by decide⟩
+  simp only [sharedTmpSeq, oneChunk, List.map, List.cons_append, List.nil_append, List.take, List.drop]
+  repeat (first | exact Interleave.nil | apply Interleave.left | apply Interleave.right)
+
+/-- Two unpackers of one archive (members `a.txt`, `b`) that are NOT serialised, as recorded from the code with
+    `RLock` in `UnpackArchive`: both find the destination absent and work in the same name-derived temp directory
+    `R/tmp/pack`; B truncates `b` just before A renames the directory into place; B's next open below the temp
+    directory fails, and its error clean-up `os.RemoveAll(destDir)` removes what A published. -/
+def exTwoUnpackers : List Call :=
+  [.mkdir ["R", "tmp", "pack"] 0o700,                                                   -- A: EnsureAbsPath(tmpDir)
+   .openC ["R", "tmp", "pack", "a.txt"] true false true 0o644 (some 6), .write 6 ⟨1, 0, 10⟩, .close 6,   -- A: a.txt
+   .mkdir ["R", "tmp", "pack"] 0o700,                                                   -- B: EnsureAbsPath (EEXIST is fine)
+   .openC ["R", "tmp", "pack", "a.txt"] true false true 0o644 (some 7), .write 7 ⟨1, 0, 10⟩, .close 7,   -- B: a.txt again
+   .openC ["R", "tmp", "pack", "b"] true false true 0o600 (some 6), .write 6 ⟨2, 0, 7⟩, .close 6,        -- A: b
+   .openC ["R", "tmp", "pack", "b"] true false true 0o600 (some 7),                     -- B: b, O_TRUNC
+   .rename ["R", "tmp", "pack"] ["R", "dst", "pack"],                                   -- A: publishes, returns nil
+   .write 7 ⟨2, 0, 7⟩, .close 7,                                                        -- B: goes on writing below the destination
+   .rename ["R", "tmp", "pack"] ["R", "dst", "pack"],                                   -- B: ENOENT → error
+   .unlink ["R", "dst", "pack", "a.txt"], .unlink ["R", "dst", "pack", "b"], .rmdir ["R", "dst", "pack"]] -- B: RemoveAll(destDir)
+
+def exTree2 : Obs := some (.dir, [(["a.txt"], .file [⟨1, 0, 10⟩]), (["b"], .file [⟨2, 0, 7⟩])])
+
+/-- The lock is needed: the unserialised interleaving above is rejected by the checker; a reader sees the directory
+    with an EMPTY member right after A's rename (a fragment), and at the end — A has returned nil — the destination
+    is absent again. (The same two runs one after the other are accepted: B finds the destination and does nothing.) -/
+theorem two_unpackers_need_the_lock :
+    safePublishDir (baseFS none) ["R", "dst", "pack"] none exTree2 exTwoUnpackers = false ∧
+    vview (run (baseFS none) (exTwoUnpackers.take 13)) ["R", "dst", "pack"]
+      = some (.dir, [(["a.txt"], .file [⟨1, 0, 10⟩]), (["b"], .file [])]) ∧
+    vview (run (baseFS none) exTwoUnpackers) ["R", "dst", "pack"] = none := by
+  decide
+
+/-- one unpacker alone, and a second one after it (finds the destination: no calls) — accepted, ends published -/
+def exOneUnpacker : Writer := fun s =>
+  if (lookup s.names ["R", "dst", "pack"]).isSome then [] else
+  [.mkdir ["R", "tmp", "pack"] 0o700,
+   .openC ["R", "tmp", "pack", "a.txt"] true false true 0o644 (some 6), .write 6 ⟨1, 0, 10⟩, .close 6,
+   .openC ["R", "tmp", "pack", "b"] true false true 0o600 (some 6), .write 6 ⟨2, 0, 7⟩, .close 6,
+   .rename ["R", "tmp", "pack"] ["R", "dst", "pack"], .chmod ["R", "dst", "pack"] 0o755]
+
+example : safePublishDir (baseFS none) ["R", "dst", "pack"] none exTree2
+    (serialRuns (baseFS none) [exOneUnpacker, exOneUnpacker]) = true := by decide
+example : vview (run (baseFS none) (serialRuns (baseFS none) [exOneUnpacker, exOneUnpacker])) ["R", "dst", "pack"] = exTree2 := by decide
+example : TwoUnpackRuns unpackLockKind (baseFS none) exOneUnpacker exOneUnpacker
+    (serialRuns (baseFS none) [exOneUnpacker, exOneUnpacker]) := by
+  unfold TwoUnpackRuns; rw [if_pos (show unpackLockKind = 2 from rfl)]; exact Or.inl rfl
 
 end PB.C17
